@@ -34,7 +34,7 @@ type C03Case struct {
 	Changelog string `json:"changelog,omitempty"`
 }
 
-var c03Items = []string{"f5000", "f0", "dir", "symlink", "f1", "f1023", "f1024", "config", "ghost", "big", "mut", "disklink"}
+var c03Items = []string{"f5000", "f0", "dir", "symlink", "f1", "f1023", "f1024", "config", "ghost", "big", "mut", "disklink", "links-tree", "links-glob"}
 
 // c03FracItems: entries whose times are not whole seconds (explicit entry mtimes; a tree whose directories and
 // files have fractional on-disk mtimes): the times a package states about its entries must be the entries' times.
@@ -90,6 +90,10 @@ func c03Entry(item string, i int, nameClass string) model.Entry {
 		return model.Entry{Src: "etc/app.conf", Dst: base + name, Type: "config", Mode: 0o1644}
 	case "tree-mode":
 		return model.Entry{Src: "tree", Dst: base + name, Type: "tree", Mode: 0o2750}
+	case "links-tree": // on-disk symlinks whose targets are not in canonical form (./x, a/../x, dir/), dangling ones
+		return model.Entry{Src: "links", Dst: base + name, Type: "tree"}
+	case "links-glob":
+		return model.Entry{Src: "links/*", Dst: base + name}
 	case "sizes-tree":
 		return model.Entry{Src: "sizes", Dst: base + name, Type: "tree"}
 	case "frac-file":
